@@ -934,7 +934,38 @@ func (c *Ctx) checkCountryMapsReset(newM, zeroM *ssa.Function) {
 		c.check(sameStringSet(sortedKeys(created), sortedKeys(zeroed)), "O-1c counter sets agree", "per-period maps created = maps reset", p.Pos(zeroM.Pos()),
 			fmt.Sprintf("%v", sortedKeys(created)), fmt.Sprintf("created %v but reset %v", sortedKeys(created), sortedKeys(zeroed)))
 	}
-
+	// one address set per proxy type: every entry stored into the per-type table is a map made for that entry.
+	// A set made once in front of the loop is shared by every type: each type's unique-address line then shows
+	// the sum over all types, and the total counts every address once per type.
+	{
+		rule := "O-1h one address set per proxy type"
+		n, bad := 0, 0
+		for _, fn := range p.FnsIn("broker") {
+			allInstrs(fn, func(in ssa.Instruction) {
+				mu, ok := in.(*ssa.MapUpdate)
+				if !ok {
+					return
+				}
+				if _, f, okf := fieldLoad(mu.Map); !okf || f.Name() != "proxies" || f.Pkg() == nil || !strings.HasPrefix(f.Pkg().Path(), modPath) {
+					return
+				}
+				n++
+				mm, isMake := strip(mu.Value).(*ssa.MakeMap)
+				if isMake && (!inCycle(mu.Block()) || inCycle(mm.Block())) {
+					return
+				}
+				bad++
+				why := "the stored set is not a map made for this entry"
+				if isMake {
+					why = "the set is made once, outside the loop that stores it under every proxy type"
+				}
+				c.viol(rule, p.FnName(fn)+" stores a per-type address set", p.instrPos(mu), why+": proxy types share one set, so per-type unique-address figures count other types' addresses")
+			})
+		}
+		if bad == 0 {
+			c.check(n >= 2, rule, "every entry of the per-type table is a map made for that entry", p.Pos(zeroM.Pos()), fmt.Sprintf("%d store(s) into countryStats.proxies, each a make() in the same iteration", n), "fewer than two stores into the per-type table found (creation and rotation)")
+		}
+	}
 }
 
 // checkReportCoversAllTypes: (a) the per-type unique-address lines and the total
